@@ -2169,9 +2169,28 @@ impl<'arena> PrettyFormatter<'arena> {
         RcDoc::text(match literal {
             | Literal::Integer(value) => format!("{value:?}"),
             | Literal::Float(value) => format!("{value:?}"),
-            | Literal::String(value) => format!("{value:?}"),
+            | Literal::String(value) => Self::string_literal(value.as_str()),
             | Literal::Char(value) => format!("{value:?}"),
         })
+    }
+
+    /// Spell a string with the escapes `escape::apply_string_escapes` reads back;
+    /// every other character is written as it is.
+    fn string_literal(value: &str) -> String {
+        let mut text = String::with_capacity(value.len() + 2);
+        text.push('"');
+        for character in value.chars() {
+            match character {
+                | '\\' => text.push_str("\\\\"),
+                | '"' => text.push_str("\\\""),
+                | '\n' => text.push_str("\\n"),
+                | '\r' => text.push_str("\\r"),
+                | '\t' => text.push_str("\\t"),
+                | _ => text.push(character),
+            }
+        }
+        text.push('"');
+        text
     }
 }
 
